@@ -892,40 +892,42 @@ func c12Envelope(c *Ctx) {
 	if pk == nil {
 		return
 	}
-	info := pk.TypesInfo
-	// the dialect instance: returns []T{x} where x has "doc:encodes": []T{*report}
+	// the dialect instance, on values (E-sym): a function that returns a list holding a node with a "doc:encodes" entry
+	// returns exactly one such node, and the entry is a list of exactly one element (however the node is put together:
+	// one literal, a helper that builds the skeleton plus stores, ...)
 	for _, f := range pk.Syntax {
 		for _, d := range f.Decls {
 			fd, ok := d.(*ast.FuncDecl)
-			if !ok || fd.Body == nil {
+			if !ok || fd.Body == nil || fd.Type.Results == nil || len(fd.Type.Results.List) != 1 {
 				continue
 			}
-			var enc *ast.CompositeLit
-			ast.Inspect(fd.Body, func(n ast.Node) bool {
-				if cl, ok := n.(*ast.CompositeLit); ok {
-					if v := compositeKeyValue(info, cl, "doc:encodes"); v != nil {
-						if inner, ok := ast.Unparen(v).(*ast.CompositeLit); ok {
-							enc = inner
-						}
+			isEnvelope, good := false, true
+			proto := &symWalker{Inline: samePkgInline(pk)}
+			proto.OnReturn = func(w *symWalker, ret *ast.ReturnStmt, results []*Sym) {
+				if w.depth != 0 || len(results) != 1 || results[0].K != symList {
+					return
+				}
+				for _, el := range results[0].Parts {
+					node := el
+					if node.K != symStruct {
+						continue
+					}
+					encodes, has := node.Fields["doc:encodes"]
+					if !has {
+						continue
+					}
+					isEnvelope = true
+					if !listStatic(results[0]) || len(results[0].Parts) != 1 || !listStatic(encodes) || len(encodes.Parts) != 1 {
+						good = false
 					}
 				}
-				return true
-			})
-			if enc == nil {
+			}
+			p.SymWalk(pk, fd, proto, nil)
+			if !isEnvelope {
 				continue
 			}
 			key := relOf(pk) + "." + fd.Name.Name
-			one := len(enc.Elts) == 1
-			retOne := false
-			ast.Inspect(fd.Body, func(n ast.Node) bool {
-				if ret, ok := n.(*ast.ReturnStmt); ok && len(ret.Results) == 1 {
-					if cl, ok := ast.Unparen(ret.Results[0]).(*ast.CompositeLit); ok && len(cl.Elts) == 1 {
-						retOne = true
-					}
-				}
-				return true
-			})
-			r.Check(one && retOne, "C12.J5", key+"#one-instance-one-report", p.Pos(fd.Pos()), "one dialect instance whose doc:encodes holds exactly the report node", "the envelope does not hold exactly one dialect instance encoding exactly one report node")
+			r.Check(good, "C12.J5", key+"#one-instance-one-report", p.Pos(fd.Pos()), "one dialect instance whose doc:encodes holds exactly the report node", "the envelope does not hold exactly one dialect instance encoding exactly one report node")
 		}
 	}
 	// the encoder
